@@ -230,7 +230,7 @@ func runC16(c *an.Ctx) {
 		// (a) appends of binding ids guarded by the *SplitExp type assertion; the list is stored into SplitArgs
 		nApp, okApp := 0, true
 		var listVals []ssa.Value
-		an.Instrs(bd, func(in ssa.Instruction) {
+		scanAppends := func(in ssa.Instruction) {
 			call, ok := in.(*ssa.Call)
 			if !ok {
 				return
@@ -258,7 +258,12 @@ func runC16(c *an.Ctx) {
 			if !g {
 				okApp = false
 			}
-		})
+		}
+		// BuildDataForAst and the private helpers its binding loop may have been moved into
+		bdFam := familyOf(p, bd, 1)
+		for _, m := range bdFam {
+			an.Instrs(m, scanAppends)
+		}
 		stored := false
 		for _, st := range an.StoresToField(bd, splitArgsF) {
 			sl := newSlice(bd)
@@ -267,6 +272,41 @@ func runC16(c *an.Ctx) {
 				if sl.seen[lv] {
 					stored = true
 				}
+			}
+			// ... or the list is a result of such a helper
+			for v := range sl.seen {
+				cl, ok := v.(*ssa.Call)
+				if !ok {
+					continue
+				}
+				h := cl.Call.StaticCallee()
+				if h == nil || h.Blocks == nil || h == bd {
+					continue
+				}
+				inFam := false
+				for _, m := range bdFam {
+					if m == h {
+						inFam = true
+					}
+				}
+				if !inFam {
+					continue
+				}
+				an.Instrs(h, func(in ssa.Instruction) {
+					ret, ok := in.(*ssa.Return)
+					if !ok {
+						return
+					}
+					hs := newSlice(h)
+					for _, r := range ret.Results {
+						hs.add(r)
+					}
+					for _, lv := range listVals {
+						if hs.seen[lv] {
+							stored = true
+						}
+					}
+				})
 			}
 		}
 		c.Check("I3", "split-status-recorded@BuildDataForAst", bd.Pos(), nApp >= 1 && okApp && stored,
